@@ -22,4 +22,23 @@ with open(os.path.join(R, "MATRIX.md"), "w") as f:
     f.write("| seed | property | confirmed | caught by (check:harness) | checks run that did not flag it | change |\n|---|---|---|---|---|---|\n")
     for r in rows:
         f.write("| " + " | ".join(r) + " |\n")
+# per-property summary
+from collections import defaultdict
+per = defaultdict(lambda: [0, 0, 0, 0])
+for r in rows:
+    prop = r[1] if r[1] != "?" else r[0].split("-")[0]
+    prop = r[0].split("-")[0]
+    per[prop][0] += 1
+    own = any(x.startswith(prop + ":") for x in r[3].split(", "))
+    if own:
+        per[prop][1] += 1
+    elif r[3] != "-":
+        per[prop][2] += 1
+    else:
+        per[prop][3] += 1
+with open(os.path.join(R, "SUMMARY.md"), "w") as f:
+    f.write("| property | seeded changes | caught by its own check | caught only by another property's check | not caught |\n|---|---|---|---|---|\n")
+    for p in sorted(per):
+        f.write("| %s | %d | %d | %d | %d |\n" % (p, *per[p]))
+    f.write("| total | %d | %d | %d | %d |\n" % tuple(sum(v[i] for v in per.values()) for i in range(4)))
 print(len(rows), "rows;", sum(1 for r in rows if r[3] != "-"), "caught")
